@@ -83,8 +83,14 @@ def poolShapeK (sh : ShapeK) (kk sk : ArrK) (ceil : Bool) : Option ShapeK :=
   | some v, .ct kv, .ct sv => (refPool ceil kv sv v).map sh.like
   | _, _, _ => some sh.lenK.toShapeK
 
+/-- `src` = the type of `nmtools::shape(array)` (pool2d_t reads the PLAIN shape, view/pooling.hpp:34, not `shape<true>`): for
+    every view and for `ndarray_t` leaves that is the shape kind of the operand's knowledge; `na::fixed_ndarray` answers with a
+    run-time `array<size_t,dim>` although its shape is a compile-time constant -/
+def transferPool2dOn (src : ShapeK) (kk sk : ArrK) (ceil : Bool) : Option SInfo :=
+  (poolShapeK src kk sk ceil).map takeInfo
+
 def transferPool2d (kk sk : ArrK) (ceil : Bool) (i : SInfo) : Option SInfo :=
-  (poolShapeK i.shape kk sk ceil).map takeInfo
+  transferPool2dOn i.shape kk sk ceil
 
 /-! ### resize -/
 
